@@ -319,6 +319,8 @@ func (group *Group) delCustomizePubSession(sessionCtx ICustomizePubSessionContex
 		return
 	}
 
+	// 删除后，业务方继续调用该对象的Feed方法是无效的，不能再流入group（此时group中可能已经是其他输入流）
+	group.customizePubSession.Dispose()
 	group.delIn()
 }
 
